@@ -514,6 +514,26 @@ def b10(ctx, rid):
             ctx.ok(rid, key, ors[0].where(), 'or_with only on the edge where both filters have the same %s' % what)
         else:
             ctx.bad(rid, key, ors[0].where(), 'two bloom filters can be merged without their %s having been compared: a filter built with a different configuration is OR-ed in, the merged filter probes bits the other one never set and answers `absent` for its keys' % what)
+    # "merged" is only reported when the bits were really OR-ed in: every `true` result passes or_with
+    trues = []
+    for (bb, kind, payload) in core.exit_defs(f):
+        if bb in f.reachable() and isinstance(payload, dict) and payload.get('k') == 'use':
+            k = op_const(payload['o'])
+            if k is not None and k.get('int') in (1, True) or (k is not None and str(k.get('bool', '')).lower() == 'true'):
+                trues.append(bb)
+    if not trues:
+        # find by origins of the return value
+        for o in core.origins(f, 0):
+            if o.kind == 'const' and (o.data.get('int') in (1, True) if isinstance(o.data, dict) else False):
+                trues.append(o.bb)
+    key = 'merged-means-ored'
+    loose = [b for b in trues if b >= 0 and b in f.reach_from([0], avoid_exit=[c.bb for c in ors])]
+    if not trues:
+        ctx.bad(rid, key, f.where(), 'no `true` result found in checked_add_assign')
+    elif loose:
+        ctx.bad(rid, key, f.where(loose[0]), 'checked_add_assign reports the merge as done (`true`) on a path that never OR-ed the other filter\'s bits in: the group filter keeps answering `absent` for the keys of that child (an empty / off-loaded bloom is not "no keys")')
+    else:
+        ctx.ok(rid, key, f.where(trues[0]), 'every `true` result is preceded by or_with')
 
 
 BLOOM = 'filter::bloom::Bloom'
@@ -586,6 +606,41 @@ def b11(ctx, rid):
         raise core.AnchorLost('Bloom constructions / inner stores: %d' % n)
 
 
+def b12(ctx, rid):
+    """a fresh bloom / range filter (which answers `absent` for every key) is only ever attached to an index that has no records:
+    in the blob / index code Bloom::new, Bloom::new_from_shared_config and RangeFilter::new are called only while constructing an
+    empty in-memory index.  An index that already describes records gets the filter stored in its file (or none = `unknown`)."""
+    prog = ctx.prog
+    n = 0
+    for f in prog.fns.values():
+        if not f.file.startswith('src/blob/'):
+            continue
+        for c in f.calls:
+            fresh = ('filter::bloom::Bloom' in c.path and c.name in ('new', 'new_from_shared_config')) or ('RangeFilter' in c.path and c.name in ('new', 'default'))
+            if not fresh or c.bb not in f.reachable():
+                continue
+            n += 1
+            root = prog.fns[f.id].root
+            key = 'fresh-filter-only-for-empty-index|%s|%s' % (root, c.path.split('::')[-2] if '::' in c.path else c.name)
+            fam = prog.family(root)
+            loads = [x for g in fam for x in prog.fns[g].calls if x.name in ('get_records_headers', 'from_file', 'deserialize_filters', 'read_meta')]
+            builds_empty = False
+            for g in fam:
+                for b in prog.fns[g].blocks:
+                    for st in b['s']:
+                        if st['k'] == 'a' and st['r']['k'] == 'agg' and st['r'].get('adt') == 'blob::index::core::IndexStruct':
+                            o = st['r']['ops'][st['r']['fields'].index('inner')]
+                            ogs = core.origins(prog.fns[g], o)
+                            if any(og.kind == 'agg' and og.data.get('variant') == 'InMemory' for og in ogs):
+                                builds_empty = True
+            if builds_empty and not loads:
+                ctx.ok(rid, key, c.where(), 'constructor of an empty in-memory index')
+            else:
+                ctx.bad(rid, key, c.where(), 'a fresh (all-zero) filter is created in `%s`, which works on an index that already describes records (%s): the keys of those records were never added to it, so once it is dumped / merged into the group filter they are answered `absent`' % (root.split('::')[-1], ', '.join(sorted({x.name for x in loads})) or 'no empty index is built here'))
+    if n < 2:
+        raise core.AnchorLost('fresh filter constructions in src/blob: %d' % n)
+
+
 RULES = [
     Rule('C10.B1', 'every `definitely absent` answer lies in its owner and is controlled by that owner\'s justifying test; defaults are NeedAdditionalCheck', b1, 11),
     Rule('C10.B2', 'filter.add(key) dominates every insertion into the in-memory header map', b2, 2),
@@ -597,5 +652,6 @@ RULES = [
     Rule('C10.B8', 'a transition back to InMemory re-initialises the filter (C04.T5 instances)', b8, 2),
     Rule('C10.B10', 'bloom filters are merged only when hasher count and bit length are equal', b10, 2),
     Rule('C10.B11', 'Bloom.bits_count and the length of the in-memory bit vector are the same value at every construction and store', b11, 4),
+    Rule('C10.B12', 'a fresh bloom / range filter is only attached to an index without records', b12, 2),
     Rule('C10.B9', 'the range merge can extend both bounds in one call', b9, 1),
 ]
